@@ -48,7 +48,9 @@ def classify(case, observed, kfs):
         hit, repro, deviation = None, False, None
         for j, f in enumerate(steps):
             k = kf[j][wi] if j < len(kf) and len(kf[j]) > wi else "-"
-            dev = [(a, f.get(a), f.get(b)) for a, b in pairs if f.get(a) != f.get(b)]
+            # "?" in the os.File column: unspecified there (a directory read by a handle that was not rewound after the
+            # directory changed), not compared
+            dev = [(a, f.get(a), f.get(b)) for a, b in pairs if f.get(b) != "?" and f.get(a) != f.get(b)]
             if hit is None and k != "-":
                 hit = k
             if hit is not None:
